@@ -149,6 +149,15 @@ func RegisterVrt(module string) {
 			ex.th = thINT
 		case "bv":
 			ex.th = thBV
+		case "int-cvc5":
+			ex.th = thINT
+			ex.prefer = "cvc5-int"
+		case "bv-cvc5":
+			ex.th = thBV
+			ex.prefer = "cvc5-bv"
+		case "bv-z3new":
+			ex.th = thBV
+			ex.prefer = "z3new-bv"
 		default:
 			panic(engineError{"unknown theory " + a[0].(string)})
 		}
